@@ -1,4 +1,5 @@
 """C17 — Monero / Algorand / Electrum v1 / Electrum v2 mnemonics are canonical codecs with sound checksums."""
+import unicodedata
 from harness.core import Case
 from harness.canon import hx, tx
 from harness.props.mnemonic_common import IMPL, MONERO_LANGS, V2_LANGS, V2_TYPES, oracle_for
@@ -74,6 +75,21 @@ def v2_prefix_phrases(rng, words, wanted, n_words=12, budget=60000):
         if len(out) == len(wanted):
             break
     return out
+
+
+def v2_phrases_also_bip39(rng, words, prefix, n_words=12, budget=40000):
+    """a sentence over `words` that is a checksum-valid BIP-39 sentence AND whose 'Seed version' HMAC starts with `prefix`: Electrum refuses
+    these in every language (the BIP-39 exclusion).  Built from random entropy with the BIP-39 checksum (hashlib), then filtered by HMAC"""
+    import hmac, hashlib
+    ent_len = n_words * 32 // 3 // 8
+    cs = n_words * 11 - ent_len * 8
+    for _ in range(budget):
+        ent = bytes(rng.randrange(256) for _ in range(ent_len))
+        v = (int.from_bytes(ent, "big") << cs) | (hashlib.sha256(ent).digest()[0] >> (8 - cs))
+        ph = " ".join(words[(v >> (11 * (n_words - 1 - i))) & 2047] for i in range(n_words))
+        if hmac.new(b"Seed version", unicodedata.normalize("NFKD", ph).encode("utf-8"), hashlib.sha512).hexdigest().startswith(prefix):
+            return ph
+    return None
 
 
 def gen(rng, tier):
@@ -190,6 +206,16 @@ def gen(rng, tier):
         ws[rng.randrange(len(ws))] = "abandon"
         yield Case("ev2dec", [lang, "any", tx(" ".join(ws)), oracle_for(" ".join(ws))], "neg-v2")
         yield Case("ev2dec", [lang, "any", tx(" ".join(ws[:-1])), oracle_for(" ".join(ws[:-1]))], "neg-v2")
+    # the BIP-39 exclusion, in every language of the scheme: a sentence with the standard version prefix that is also checksum-valid BIP-39
+    for lang in V2_LANGS:
+        wl = Bip39WordsListGetter().GetByLanguage(Bip39Languages[lang])
+        lw = [wl.GetWordAtIdx(i) for i in range(2048)]
+        for k in range(1 if tier == "quick" else 4):
+            ph = v2_phrases_also_bip39(rng, lw, "01")
+            if ph is not None:
+                yield Case("ev2dec", [lang, "any", tx(ph), oracle_for(ph)], "neg-v2-also-bip39")
+                yield Case("ev2dec", [lang, "STANDARD", tx(ph), oracle_for(ph)], "neg-v2-also-bip39")
+                yield Case("ev2dec", ["auto", "any", tx(ph), oracle_for(ph)], "neg-v2-also-bip39")
     # the version prefix, digit by digit: 01 / 100 / 101 / 102 are the four types, every neighbour (103…10f, 00x, 02x, 11x) is none
     engw = [eng.GetWordAtIdx(i) for i in range(2048)]
     wanted = ["01", "100", "101", "102", "103", "104", "107", "108", "10f", "00", "02", "11", "1f"] if tier == "quick" else \
